@@ -72,20 +72,21 @@ class Check(PropertyCheck):
         depth = 0
         for o in ops:
             if o == "e": depth += 1
-            elif o == "x":
+            elif o in ("x", "y"):
                 if depth == 0: return False
                 depth -= 1
         return True
 
     def _small(self, L, timeout):
-        alphabet = ["a", "e", "x", ["t", 1], ["t", 2], ["t", timeout]]
+        # "x" completes the most recently started pending hook, "y" the oldest one (overlapping, not nested)
+        alphabet = ["a", "e", "x", "y", ["t", 1], ["t", 2], ["t", timeout]]
         for n in range(1, L + 1):
             for ops in itertools.product(alphabet, repeat=n):
                 if self._wellformed(ops):
                     yield list(ops)
 
     def generate(self, rng, tier):
-        L = 5 if tier == "quick" else 7
+        L = 5 if tier == "quick" else 6
         for ops in self._small(L, 3):
             yield {"level": "watchdog", "timeout": 3, "ops": ops}
         for ops in self._small(4 if tier == "quick" else 5, 2):
@@ -97,7 +98,7 @@ class Check(PropertyCheck):
                 r = rng.random()
                 if r < 0.2: ops.append("a")
                 elif r < 0.4: ops.append("e"); depth += 1
-                elif r < 0.6 and depth: ops.append("x"); depth -= 1
+                elif r < 0.6 and depth: ops.append(rng.choice(["x", "y"])); depth -= 1
                 else: ops.append(["t", rng.choice([1, 1, 2, timeout - 1 or 1, timeout, timeout + 1])])
             yield {"level": rng.choice(["watchdog", "handler"]), "timeout": timeout, "ops": ops}
 
@@ -108,19 +109,21 @@ class Check(PropertyCheck):
     def _run_watchdog(self, case):
         with installed() as loop:
             fired = []
+            pend = [0]          # hooks pending, counted by the harness itself (no reliance on watchdog internals)
             async def cb():
-                fired.append((loop.ticks(), w.blocker))
+                fired.append((loop.ticks(), pend[0]))
             w = server.TimeoutWatchdog(case["timeout"], cb)
             task = loop.create_task(w.watch()); loop.pump()
             cms, out = [], []
             for op in case["ops"]:
                 if op == "a": w.register_activity()
                 elif op == "e":
-                    cm = w.disarm(); cm.__enter__(); cms.append(cm)
-                elif op == "x": cms.pop().__exit__(None, None, None)
+                    cm = w.disarm(); cm.__enter__(); cms.append(cm); pend[0] += 1
+                elif op == "x": cms.pop().__exit__(None, None, None); pend[0] -= 1
+                elif op == "y": cms.pop(0).__exit__(None, None, None); pend[0] -= 1
                 else: loop.advance(op[1])
                 loop.pump()
-                out.append([1 if fired else 0, w.blocker, loop.ticks()])
+                out.append([1 if fired else 0, pend[0], loop.ticks()])
             task.cancel(); loop.pump()
             return {"steps": out, "fired": fired[:1]}
 
@@ -136,12 +139,14 @@ class Check(PropertyCheck):
             h = mode_servers.ProxyConnectionHandler(master, None, _Writer(), opts, mode_specs.ProxyMode.parse("regular"))
             h.layer = _QuietLayer(h.layer.context)
             fired = []
+            pend = [0]
+            closing = []        # set while the harness itself tears the scenario down
 
             async def client_handler():
                 try:
                     await asyncio.Event().wait()
                 except asyncio.CancelledError:
-                    fired.append((loop.ticks(), h.timeout_watchdog.blocker))
+                    if not closing: fired.append((loop.ticks(), pend[0]))
                     raise
             ch = loop.create_task(client_handler())
             h.transports[h.client].handler = ch
@@ -152,15 +157,16 @@ class Check(PropertyCheck):
                 if op == "a":
                     loop.create_task(h.server_event(events.Start()))
                 elif op == "e":
-                    tasks.append(loop.create_task(h.handle_hook(_Hook(object()))))
+                    tasks.append(loop.create_task(h.handle_hook(_Hook(object())))); pend[0] += 1
                     loop.pump()
-                elif op == "x":
-                    # complete the most recently started, still pending hook (LIFO like the bare-watchdog level)
-                    gate = [g for g in master.addons.gates if not g.is_set()][-1]
-                    gate.set()
+                elif op in ("x", "y"):
+                    # complete the most recently started ("x") or the oldest ("y") still pending hook
+                    gate = [g for g in master.addons.gates if not g.is_set()][-1 if op == "x" else 0]
+                    gate.set(); pend[0] -= 1
                 else: loop.advance(op[1])
                 loop.pump()
-                out.append([1 if fired else 0, h.timeout_watchdog.blocker, loop.ticks()])
+                out.append([1 if fired else 0, pend[0], loop.ticks()])
+            closing.append(1)
             for t in tasks + [wt, ch]: t.cancel()
             loop.pump()
             return {"steps": out, "fired": fired[:1]}
@@ -176,7 +182,7 @@ class Check(PropertyCheck):
         for op, (f, blocker, ticks) in zip(case["ops"], obs["steps"]):
             if op == "a": last = now
             elif op == "e": depth += 1
-            elif op == "x":
+            elif op in ("x", "y"):
                 depth -= 1
                 if depth == 0: last = now   # "the idle period restarts when the last pending hook completes"
             else: now += op[1]
@@ -197,7 +203,7 @@ class Check(PropertyCheck):
     def model_lines(self, case):
         lines = [f"reset {case['timeout']}"]
         for op in case["ops"]:
-            lines.append(op if isinstance(op, str) else f"t {op[1]}")
+            lines.append(("x" if op == "y" else op) if isinstance(op, str) else f"t {op[1]}")   # the model counts hooks: which one ends is immaterial
         return lines
 
     def model_obs(self, case, replies):
